@@ -19,7 +19,8 @@ ASSUMPTIONS = [
     "host is little-endian (reinterpret_cast of the byte window yields little-endian code units), as on this sandbox",
     "the stream handed to the reader is fresh (good, at position 0) and is only read by the reader",
     "chunk size is a multiple of 4 and >= 32 (the class static_asserts it)",
-    "T_C13_truncated is NOT proved in general (only the partial-code-unit case and kernel-evaluated examples); truncation behaviour is covered by the correspondence at every cut point of the generated texts",
+    "the truncated-stream and ill-formed-text theorems take the detection as a hypothesis (BOM present, or BOM-less text starting with an ASCII character outside the listed defect classes; T_C13_illformed_*: detect (first K bytes) = (scheme, BOM length), which T_C13_illformed_detect_bom discharges for every stream that begins with a BOM)",
+    "same source and target width: the text is copied, not validated (by design: T_C13_samewidth_copy says exactly what is copied); T_C13_illformed_* are stated for source width <> target width, T_C13_truncated_outside for every pair except UTF-8 into char (raw append, known finding F39)",
 ]
 
 ALPHABET = [0x41, 0x7A, 0x31, 0x0, 0xE9, 0x7FF, 0x800, 0x20AC, 0xFFFD, 0x10000, 0x1F600, 0x10FFFF]
@@ -130,6 +131,49 @@ def gen_esr(rng, tier):
     return cases, meta
 
 
+ILL_UNITS = {8: [[0x80], [0xC0, 0x80], [0xFF], [0xED, 0xA0, 0x80], [0xF4, 0x90, 0x80, 0x80], [0xE2, 0x82], [0xF0, 0x9F, 0x98], [0xE2, 0x82, 0x41]],
+             16: [[0xDC00], [0xD800], [0xD800, 0xD800], [0xDBFF, 0x41], [0xDC00, 0xD800]],
+             32: [[0xD800], [0x110000], [0xFFFFFFFF]]}
+
+
+def units_bytes(e, units):
+    w, order = S.ENC[e]
+    out = []
+    for u in units:
+        bs = [(u >> (8 * i)) & 0xFF for i in range(w // 8)]
+        out += bs if order == "le" else bs[::-1]
+    return out
+
+
+def gen_ill_boundary(rng, tier):
+    """ill-formed sequences at every offset around the chunk boundaries K and 2K (also straddling them, also at the very
+    end of the stream and followed by a part of a code unit): T_C13_illformed_* say the boundaries play no role"""
+    cases, meta = [], {}
+    for K in S.ESR_K:
+        for e in S.ENC:
+            w = S.ENC[e][0]
+            ub = w // 8
+            for bom in (False, True):
+                bl = len(S.BOM[e]) if bom else 0
+                for base in (K, 2 * K):
+                    for d in range(-8, 3):
+                        o1 = base + d - bl
+                        if o1 <= 0 or o1 % ub:
+                            continue
+                        for bad in ILL_UNITS[w]:
+                            tail_kind = rng.randrange(4)
+                            after = [] if tail_kind == 0 else [0x63] * rng.choice([1, 3, K // ub])
+                            data = (S.BOM[e] if bom else []) + S.text_bytes(e, [0x61] * (o1 // ub)) + units_bytes(e, bad) + S.text_bytes(e, after)
+                            if tail_kind == 3 and ub > 1:
+                                data = data + [0x00] * rng.randrange(1, ub)
+                            for pol in "ST":
+                                tgt = rng.choice([t for t in (8, 16, 32) if t != w] + ([w] if rng.random() < 0.25 else []))
+                                line = "esr %d %d %s %s %s" % (K, tgt, pol, rng.choice(S.KINDS), S.hx(data))
+                                if line not in meta:
+                                    cases.append(line); meta[line] = (e, bom)
+    return cases, meta
+
+
 def gen_esw(rng, tier):
     cases = []
     for _ in range(2000 if tier == "quick" else 20000):
@@ -178,6 +222,9 @@ def run(ctx, vlib):
     corpus = S.load_corpus("C13")
     dcases, dmeta = gen_detect(rng, tier)
     ecases, emeta = gen_esr(rng, tier)
+    bcases, bmeta = gen_ill_boundary(rng, tier)
+    ecases += bcases
+    emeta.update(bmeta)
     wcases = gen_esw(rng, tier)
     icases = C10.gen_is(rng, 500 if tier == "quick" else 5000)
     cases = corpus + dcases + ecases + wcases + icases
@@ -234,7 +281,7 @@ def run(ctx, vlib):
     samples.append(dict(sweep="esrcuts %d %d %s %s <%d bytes> %d %d" % (s0[0], s0[1], s0[2], s0[3], len(s0[4]) // 2, s0[5], s0[6])))
     return dict(evaluations=len(cases) + sw_evals, distinct_nontrivial=nontriv + sw_nontriv, samples=samples, classes=classes,
                 failing=failing, diffs=diffs, known_lines=known,
-                rule="detection: all texts of 1..3 characters over a 12-character alphabet (ASCII, NUL, Latin-1, BMP, astral) x 5 schemes x BOM, the stream overload on the shorter ones x skipBom x stream kinds, random byte strings; reader: texts of about 3K+5 bytes with a character of every UTF-8 length (1..4) / UTF-16 length starting at each stream offset K-4..K+4 and 2K-4..2K+4 x 5 schemes x BOM x 3 target widths x K in {32,64,256} x both policies, run at EVERY cut point of the byte stream (quick: every cut for K=32,64, the cuts within 8 bytes of 0, K, 2K and the end for K=256) as hashed sweeps bisected on mismatch; random mixed texts with cuts / ill-formed insertions / garbage x stream kinds; writer: random pieces of the three widths incl. ill-formed ones; every explicit answer of the implementation is also judged against an independent reading of the property; non-trivial = reader run that is not the single-chunk answer 'SE' / explicit case longer than 4 bytes",
+                rule="detection: all texts of 1..3 characters over a 12-character alphabet (ASCII, NUL, Latin-1, BMP, astral) x 5 schemes x BOM, the stream overload on the shorter ones x skipBom x stream kinds, random byte strings; reader: texts of about 3K+5 bytes with a character of every UTF-8 length (1..4) / UTF-16 length starting at each stream offset K-4..K+4 and 2K-4..2K+4 x 5 schemes x BOM x 3 target widths x K in {32,64,256} x both policies, run at EVERY cut point of the byte stream (quick: every cut for K=32,64, the cuts within 8 bytes of 0, K, 2K and the end for K=256) as hashed sweeps bisected on mismatch; random mixed texts with cuts / ill-formed insertions / garbage x stream kinds; ill-formed and uncompleted sequences of every kind starting at each stream offset K-8..K+2 and 2K-8..2K+2 (straddling the chunk boundaries, at the end of the stream, followed by a part of a code unit) x 5 schemes x BOM x K x both policies, judged against skip_spec / the well-formed prefix; writer: random pieces of the three widths incl. ill-formed ones; every explicit answer of the implementation is also judged against an independent reading of the property; non-trivial = reader run that is not the single-chunk answer 'SE' / explicit case longer than 4 bytes",
                 exhaustive=True, broken="correspondence stream model (M-DET / M-ESR / M-ESW) vs convert_utf.h (drv_stream)",
                 extra=dict(sweeps=len(sweeps), sweep_evaluations=sw_evals, verdicts=verdicts))
 
